@@ -1,0 +1,12 @@
+//go:build verif
+
+package wtxmgr
+
+import "github.com/lightningnetwork/lnd/clock"
+
+// VerifSetClock replaces the store's clock. It exists only under the "verif"
+// build tag so that lease expiry can be exercised without waiting in real
+// time; the field is otherwise unexported.
+func (s *Store) VerifSetClock(c clock.Clock) {
+	s.clock = c
+}
